@@ -338,7 +338,10 @@ where
 fn hist_ranges(r: &mut GRng, n: usize, signed: bool, count: usize, max_size: u64) -> Vec<(B, B, u64)> {
     let mut v: Vec<(B, B, u64)> = Vec::new();
     let (tmin, tmax) = if signed { (gen::smin(n), gen::smax(n)) } else { (gen::zero(n), gen::ones(n)) };
-    let sizes: Vec<u64> = vec![1, 2, 3, 4, 5, 6, 7, 9, 10, 15, 16, 17, 100, 127, 128, 129, 200, 255];
+    // sizes r for which 2^8, 2^16 and 2^24 leave different residues come first (7, 14, 9, 100, 11, 13, 22): a rejection zone
+    // computed from the wrong power of two (the digit width instead of the type's width) is then a different zone;
+    // for 3, 5, 6, 10, 12 the residues coincide and such a slip is invisible
+    let sizes: Vec<u64> = vec![7, 14, 9, 100, 11, 13, 22, 3, 5, 6, 10, 1, 2, 4, 15, 16, 17, 127, 128, 129, 200, 255];
     for i in 0..count {
         let size = if i < sizes.len() && sizes[i] <= max_size { sizes[i] } else { 1 + r.below(max_size) };
         // low: sometimes so that the range spans zero / ends at the type's maximum
